@@ -1004,8 +1004,10 @@ func (t *Table) Reduce(cfg SortConfig, aaps []AliasAccPair) error {
 	id := func(r Row) string {
 		res := bytes.NewBufferString("")
 		for _, c := range cfg {
-			res.WriteString(r[c.Binding].valueKey())
-			res.WriteString(";")
+			// The length of each value is part of the key. A separator alone can
+			// also be part of the values, e.g. of a text literal.
+			k := r[c.Binding].valueKey()
+			fmt.Fprintf(res, "%d:%s;", len(k), k)
 		}
 		return res.String()
 	}
